@@ -127,6 +127,7 @@ def handle (op : String) (args : List String) : String :=
           Hex.enc (utf8 (pat.render .pcre)) ++ " " ++ ";".intercalate (patConstructs pat).eraseDups
     | none => "err BadHex"
   | "subtraction", _ => "ok " ++ b01 Generated.UBlocks.subtraction
+  | "negblocks", _ => "ok " ++ b01 Generated.UBlocks.negBlocks
   | "mce", _ => "ok " ++ (if Generated.UBlocks.mceTable.isEmpty then "-" else
       String.ofList (Generated.UBlocks.mceTable.map fun e => Char.ofNat e.1.toNat))
   | "opts", _ => "ok " ++ ",".intercalate (Generated.UBlocks.compileOpts.toArray.qsort (· < ·)).toList
